@@ -88,7 +88,11 @@ func (pl *Playlist) M3u8(token string) ([]byte, error) {
 		}
 	}
 
-	return w.Bytes(), nil
+	// w goes back to the pool when this call returns and the next caller writes
+	// its playlist into it: hand out bytes of the caller's own.
+	cont := make([]byte, w.Len())
+	copy(cont, w.Bytes())
+	return cont, nil
 }
 
 // Segment 获取 segment
